@@ -3,7 +3,9 @@ from props.pipe_common import *
 PROPS_FILE = "Props_C15.v"
 RULE = ("random BMP session histories (peer up/down cycles, route traffic, End-of-RIB, invalid and unparsable messages, termination) with the "
         "/metrics exposition of the state machine read at random quiescent points and at the end; non-trivial = at least one metrics read "
-        "after a peer went down or after an invalid message")
+        "after a peer went down or after an invalid message; RIB unit: histories of BGP sessions with disjoint prefixes (announce, re-announce, "
+        "one withdrawal per route) and arbitrary pipeline histories (shared prefixes, withdrawals of anything, flaps, session ends) with the "
+        "RIB unit's own counters read from its rendered /metrics text at random points (op MR: against the model; the last read of an arbitrary history, op MRS: also against the descriptions of the metrics); non-trivial there = a read that shows a count")
 
 
 def gen(rng, tier):
@@ -12,7 +14,82 @@ def gen(rng, tier):
         yield pipegen.gen_case(rng, peers=[0, 3, 5, 6, 8], metrics=True, bgp=False, query_ops=False, length=(8, 50 if tier == "quick" else 150))
 
 
+def rib_clean_case(rng):
+    """BGP sessions with disjoint prefixes; a route is announced (and re-announced), withdrawn at most once while active and never
+    announced again, no session ends: the histories on which the RIB unit's counters say what their descriptions say. Read with MR
+    (code against model): the shrinker cannot turn a changed bump into an instance of finding C15-6 (which MRS reads show)"""
+    ops = ["O 0", "O 1"]
+    own = {0: [1, 2, 3], 1: [4, 5, 6]}
+    active = {0: set(), 1: set()}
+    dead = {0: set(), 1: set()}
+    for _ in range(rng.range(3, 14)):
+        b = rng.below(2)
+        k = rng.weighted([("a", 55), ("w", 25), ("m", 20)])
+        if k == "a":
+            ps = sorted({rng.choice(own[b]) for _ in range(rng.range(1, 3))} - dead[b])
+            if ps:
+                ops.append("A %d 0 %d %s 0 -" % (b, rng.below(5), ",".join(map(str, ps))))
+                active[b].update(ps)
+        elif k == "w" and active[b]:
+            p = rng.choice(sorted(active[b]))
+            active[b].discard(p)
+            dead[b].add(p)
+            ops.append("A %d 0 0 - 0 %d" % (b, p))
+        else:
+            ops.append("MR")
+    return ";".join(ops + ["MR"])
+
+
+def rib_any_case(rng, last="MRS"):
+    """any pipeline history (BMP routers and BGP sessions sharing prefixes, withdrawals of anything, flaps), the RIB unit's counters
+    read at random points (MR: code against model); the last read also against the descriptions of the metrics if `last` is MRS"""
+    ops = pipegen.gen_case(rng, peers=[0, 3, 5, 6, 8], metrics=True, bgp=True, query_ops=False, length=(8, 40)).split(";")
+    for _ in range(rng.range(1, 4)):
+        ops.insert(rng.below(len(ops) + 1), "MR")
+    return ";".join(ops + [last])
+
+
+# finding C15-6 (RIB unit counters), one history per face; generated last so that they are looked at after everything else
+RIB_FINDING_CASES = [
+    "O 0;O 1;A 0 0 1 1 0 -;A 1 0 2 1 0 -;MRS",          # two routes stored for one prefix: num_items 1
+    "O 0;A 0 0 1 1 0 -;A 0 0 0 - 0 1;A 0 0 0 - 0 1;MRS",  # withdrawn twice: num_routes_announced wraps below zero
+    "O 0;A 0 0 1 1 0 -;Z 0;MRS",                          # the session ends: num_routes_announced still 1
+    "O 0;A 0 0 0 - 0 1;MRS",                              # withdrawal of a never announced route: a hard insert failure
+]
+
+
+def gen_with_rib(rng, tier):
+    yield from gen(rng, tier)
+    r2 = rng.fork("rib-unit")
+    for _ in range(250 if tier == "quick" else 6000):
+        yield rib_clean_case(r2)
+    for _ in range(250 if tier == "quick" else 6000):
+        yield rib_any_case(r2, "MR")     # code against model on every kind of history: nothing here can be shrunk into the finding
+    for _ in range(150 if tier == "quick" else 4000):
+        yield rib_any_case(r2)
+    yield from RIB_FINDING_CASES
+
+
+def classify_with_rib(case, out):
+    ks = pipegen.classify(case, out)
+    reads = [x for x in out.split() if x.startswith("r:")]
+    if reads:
+        ks.append("rib-unit-counters-read")
+        f = [x[2:].split(",") for x in reads]
+        if any(v[3] != "0" for v in f):
+            ks.append("rib-unit-hard-failure-counted")
+        if any(v[6] != "0" for v in f):
+            ks.append("rib-unit-withdrawal-counted")
+        if any(v[4].startswith("-") for v in f):
+            ks.append("rib-unit-announced-below-zero")
+        if any(v[5] != "0" for v in f):
+            ks.append("rib-unit-modification-counted")
+    return ks
+
+
 def nontrivial(case, out):
+    if any(x.startswith("r:") and x != "r:0,0,0,0,0,0,0,0" for x in out.split()):
+        return True
     t = out.split()
     seen = False
     for x in t:
@@ -34,10 +111,10 @@ def corpus():
     ]
 
 
-ENGINES = [{"name": "pipe", "gen": gen, "corpus": corpus, "nontrivial": nontrivial, "classify": pipegen.classify, "shards": 12}]
+ENGINES = [{"name": "pipe", "gen": gen_with_rib, "corpus": corpus, "nontrivial": nontrivial, "classify": classify_with_rib, "shards": 12}]
 from props.e2e_common import e2e_engine
 ENGINES.append(e2e_engine("C15"))   # the same histories against a real pipeline over TCP/HTTP
-known_signature = known_signature_for({"KC"})   # KC: e2e engine, finding C15-4
+known_signature = known_signature_for({"KC", "KR"})   # KC: e2e engine, finding C15-4; KR: pipe engine op MR, finding C15-6
 # gate part: GateMetrics num_updates / num_dropped_updates (src/comms.rs) against the Gate model (theorems C15_gate_*)
 from props.c08 import C15_GATE_ENGINE  # noqa: E402
 ENGINES.append(C15_GATE_ENGINE)
@@ -307,5 +384,5 @@ LEVEL_NOTE = ("Trusted: Coq kernel, extraction + OCaml driver, Rust harness and 
               "per-router series parse back exactly (C15_unit_counters_labels_parse, with C19_metrics_labels_safe). NOT modelled: the text writer "
               "(Target::append*) beyond its label sets - the text is checked per run by the independent reader, not proved well-formed; the strict text "
               "format (one HELP/TYPE per name) is departed from: known finding C15-5; the roto-filter branch of process_msg (a Reject would make "
-              "received > processed); RIB unit metrics; of the BGP unit: the accept loop's counters (listener bound, connections accepted) - the session's counters (connection lost, disconnects) ARE modelled: BgpSessionModel.bsm_process, theorems C15_bgp_*, engine bgpend op M. See DESIGN.md, design-notes/C15.md and design-notes/E2E.md.")
+              "received > processed); of the RIB unit: num_insert_retries (the store's contention count) and the duration gauges - its eight other counters ARE modelled (Rib/RibModel.v ribm_run, theorems C15_rib_*, pipe op MR, known finding C15-6); of both ingress units: listener_bound_count (the e2e harness waits for its exact value, no theorem); connections accepted ARE modelled (E2eModel uc_accepted / bs_accepted, theorems C15_bmp/bgp_accepted_counts_connections, e2e ops M / BM); of the BGP unit the session's counters (connection lost, disconnects) ARE modelled: BgpSessionModel.bsm_process, theorems C15_bgp_*, engine bgpend op M. See DESIGN.md, design-notes/C15.md and design-notes/E2E.md.")
 TECHNIQUE = "Coq proof by invariant over message histories + model/implementation correspondence on rendered metrics"
